@@ -606,17 +606,28 @@ class Scheduler:
         if instruction1.name not in _SELF_COMMUTING_GATES:
             return False
         if (
-            len(instruction1.targets) > 1
+            len(instruction1.targets) != 1
             and instruction1.name not in _EXCHANGE_SYMMETRIC_GATES
         ) or (
-            len(instruction2.targets) > 1
+            len(instruction2.targets) != 1
             and instruction2.name not in _EXCHANGE_SYMMETRIC_GATES
         ):
             # A gate given by several targets (e.g. TOFFOLI([c1, c2, t]) or
-            # TOFFOLI(controls=[c1], targets=[c2, t])) encodes the role
-            # of each qubit in the order of the list, which Instruction
-            # has sorted: equal sorted lists say nothing unless the
-            # targets of the gate are interchangeable.
+            # TOFFOLI(controls=[c1], targets=[c2, t])) or by controls only
+            # encodes the role of each qubit in the order of the list,
+            # which Instruction has sorted: equal sorted lists say nothing
+            # unless the targets of the gate are interchangeable.
+            return False
+        if (
+            instruction1.controls
+            and instruction1.name in _EXCHANGE_SYMMETRIC_GATES
+        ) or (
+            instruction2.controls
+            and instruction2.name in _EXCHANGE_SYMMETRIC_GATES
+        ):
+            # An exchange-symmetric gate has no control qubit: given as
+            # SWAP(controls=[a], targets=[b]) it still acts on both qubits
+            # alike, equal `controls` (or `targets`) alone say nothing.
             return False
         if (instruction1.controls) and (
             instruction1.controls == instruction2.controls
